@@ -8,7 +8,8 @@ RULE = ("bulk and one-step programs on the real helpers: all 2^16 byte pairs for
         "(every position, deltas +1, -1, ^0x80) and in two positions with cancelling deltas (every pair of positions for selected N) for ct_eq/ct_ne/ct_zero/ct_nonzero/ct_lt/ct_ge; &[u8], &[u64;N], &[u64] likewise (unequal lengths must panic); Choice "
         "and/or/xor/negate/is_true/is_false/into-bool on all 4 input pairs; CtOption; masked swap/set for every (choice, array pair) over N in {1,4,5,10} and 6 limb "
         "patterns; MacResult == for lengths 0..=40 incl. unequal lengths and every single differing position; Tag == for every single bit, every pair of bits and equal byte deltas in every pair of bytes; oracle = python ==, <, <=; "
-        "distinct = program text")
+        "distinct = program text"
+        " Also: a choice of either truth value derived in 17 public ways (negations, comparisons, combinations) through its views, CtOption and the masked swap / set helpers; MacResult lengths 255..65536 and unequal lengths differing by 1, 256, 512, 65536; the corpus again on the checked-arithmetic, +sse4.1 and native builds.")
 ASSUMPTIONS = ["python comparison operators", "byte arrays are compared as big-endian numbers for ct_lt / ct_ge (the documented reading)",
                "slice helpers assert equal lengths: a panic there is a loud refusal, not a wrong answer"]
 
